@@ -10,11 +10,15 @@
                                   args() deserialization)
      spec_proxy_*                 SPECIFICATION: the handler's result for exactly the caller's arguments, the stored value,
                                   the emitted arguments
+     pcache / cached_get / cache_apply    MODEL of one proxy INSTANCE with the default property cache (Proxy::get_property over
+                                  PropertiesCache: first read = GetAll, `emits_changed_signal = "false"` properties never stored,
+                                  PropertiesChanged updates / invalidates entries, a missing entry falls back to Properties.Get)
+     cache_wf d vals              no cached value under an uncached (false-mode) name — an invariant of the model's caches
      typed vals tys               each value has the corresponding declared type
      bh_respects bh d             user code respects its Rust signatures
      The blocking proxy wraps the same calls in block_on: the same model stands for both (checked by running both). *)
 From ZV Require Import Base.Bytes C26.Desc C26.Tree C26.Msg C27.Model C28.Model C26.Model C33.Model.
-From ZV Require Import C28.Spec C26.Spec C33.Spec C26.Facts C26.Proofs C28.Proofs C33.Proofs C33.Examples.
+From ZV Require Import C28.Spec C26.Spec C33.Spec C26.Facts C26.Proofs C28.Proofs C28.History C33.Proofs C33.Cache C33.Examples.
 
 (* --- a proxy method call delivers the caller's arguments to the handler, once, and returns the handler's result or
        error; nothing else happens.  Full strength: every output shape, single structures and one-element tuples
@@ -67,6 +71,31 @@ Theorem C33_set_agrees_partial :
                            then upd_at root (segs_of path) (id_name (in_desc i)) vals else root)).
 Proof. exact proxy_set_agrees_partial. Qed.
 Print Assumptions C33_set_agrees_partial.
+
+(* --- through ONE proxy instance whose property cache is already populated (default caching): after a successful
+       typed write, a read returns the written value — for the modes true (served from the cache the signal updated),
+       invalidates and false (the read goes back to the server).  `const` may keep its first value.  For every
+       description, state, cache content and behaviour with a successful setter / getter --- *)
+Theorem C33_cached_read_after_write :
+  forall (bh : behaviour) (root : node) (path : bytes) (i : inst) (p : pdesc) (v : val) (vals : list (bytes * option val)),
+    state_ok root ->
+    registered root path (id_name (in_desc i)) = Some i ->
+    find_prop (in_desc i) (pd_name p) = Some p -> readable p = true -> writable p = true -> tv p = false ->
+    has_ty v (pd_ty p) = true -> setter_error bh i p v = None -> getter_error bh i p v = None ->
+    pd_emits p <> EConst ->
+    cache_wf (in_desc i) vals ->
+    let '(r1, ef, root') := proxy_set bh root path (in_desc i) p v in
+    let c' := fold_left (cache_apply (in_desc i) path) (ef_signals ef) (COk vals) in
+    r1 = POk [] /\ fst (fst (fst (cached_get bh root' path (in_desc i) p c'))) = POk [v].
+Proof. exact cached_read_after_write. Qed.
+Print Assumptions C33_cached_read_after_write.
+
+(* --- the hypothesis cache_wf is an invariant: it holds after the cache's initialisation and after every signal --- *)
+Theorem C33_cache_invariant :
+  forall (bh : behaviour) (root : node) (path : bytes) (d : idesc) (c : pcache) (m : sigmsg),
+    pcache_wf d (fst (fst (cache_init bh root path d))) /\ (pcache_wf d c -> pcache_wf d (cache_apply d path c m)).
+Proof. exact (fun bh root path d c m => conj (pcache_wf_init bh root path d) (pcache_wf_apply d path c m)). Qed.
+Print Assumptions C33_cache_invariant.
 
 (* --- a signal emitted by the interface arrives at the proxy's stream with equal arguments --- *)
 Theorem C33_signal_agrees :
